@@ -114,10 +114,15 @@ def token_classes(prog: Program) -> List[TokenClass]:
         if getter is None:
             continue
         type_const = None
+        type_literal = None
         for ret in returns_of(getter):
             name = dotted(ret)
             if name:
                 type_const = name.split(".")[-1]
+            elif isinstance(ret, ast.Constant) and isinstance(ret.value, str):
+                # a named type name is analysed as the literal it stands for
+                type_literal = ret.value
+                type_const = next((k for k, v in consts.items() if v == ret.value), repr(ret.value))
         requires = _init_chain_keyword(prog, cls, "requires_end_token")
         requires_value: Optional[bool] = None
         if isinstance(requires, ast.Constant):
@@ -133,7 +138,7 @@ def token_classes(prog: Program) -> List[TokenClass]:
             TokenClass(
                 cls=cls,
                 type_const=type_const,
-                type_name=consts.get(type_const or ""),
+                type_name=type_literal if type_literal is not None else consts.get(type_const or ""),
                 requires_end=requires_value,
                 token_class=token_class,
                 registry=reg.get(cls.name),
